@@ -18,6 +18,8 @@ use std::sync::Mutex;
 #[derive(Default)]
 pub struct W2State {
     pub active: bool,
+    /// structures with `#[derive(Default)]`: name → fields in declaration order
+    pub defaults: HashMap<String, Vec<String>>,
 }
 
 /// `tfn` items: name → Lean type of the value
@@ -105,6 +107,174 @@ pub fn translate_tfn(reg: &Registry, failed: &HashSet<String>, all: &[&Item], na
     }
     let h = tokens_hash(&quote::quote!(#f));
     Ok((s, h, f.span().start().line, f.span().end().line))
+}
+
+fn find_method<'a>(all: &[&'a Item], ty: &str, m: &str) -> Option<(&'a ItemImpl, &'a ImplItemFn)> {
+    for it in all {
+        if let Item::Impl(im) = it {
+            if !cfg_on(&im.attrs) || im.trait_.is_some() {
+                continue;
+            }
+            if let Type::Path(p) = &*im.self_ty {
+                if path_last(&p.path) != ty {
+                    continue;
+                }
+                for ii in &im.items {
+                    if let ImplItem::Fn(f) = ii {
+                        if f.sig.ident == m && cfg_on(&f.attrs) {
+                            return Some((im, f));
+                        }
+                    }
+                }
+            }
+        }
+    }
+    None
+}
+
+/// structures that derive `Default`, with their (cfg-enabled) fields
+fn derive_default_structs(all: &[&Item]) -> HashMap<String, Vec<String>> {
+    let mut out = HashMap::new();
+    for it in all {
+        if let Item::Struct(st) = it {
+            if !cfg_on(&st.attrs) {
+                continue;
+            }
+            let derives = st.attrs.iter().any(|a| {
+                a.path().is_ident("derive") && matches!(&a.meta, Meta::List(l) if l.tokens.to_string().split(',').any(|t| t.trim() == "Default"))
+            });
+            if !derives {
+                continue;
+            }
+            if let Fields::Named(n) = &st.fields {
+                let fs = n.named.iter().filter(|f| cfg_on(&f.attrs)).map(|f| f.ident.as_ref().unwrap().to_string()).collect();
+                out.insert(st.ident.to_string(), fs);
+            }
+        }
+    }
+    out
+}
+
+/// `afn Type::f`: `fn f(mut readwriter: A) -> ZipResult<Type<A>>` with `A: Read + Write + Seek` a parameter of
+/// the impl: READ mode over the owned device; the value is the generated (S-mode) structure.
+pub fn translate_afn(reg: &Registry, failed: &HashSet<String>, all: &[&Item], name: &str) -> R<(String, String, usize, usize)> {
+    let (ty, m) = name.split_once("::").ok_or("afn needs Type::f")?;
+    let (im, f) = find_method(all, ty, m).ok_or("not found")?;
+    if !f.sig.generics.params.is_empty() || f.sig.generics.where_clause.is_some() || im.generics.where_clause.is_some() {
+        return Err("generic function".into());
+    }
+    // the one type parameter of the impl: Read + Write + Seek
+    let tps: Vec<&TypeParam> = im.generics.params.iter().filter_map(|g| if let GenericParam::Type(t) = g { Some(t) } else { None }).collect();
+    if tps.len() != 1 || im.generics.params.len() != 1 {
+        return Err("impl with other than one type parameter".into());
+    }
+    let mut bounds: Vec<String> = vec![];
+    for b in &tps[0].bounds {
+        match b {
+            TypeParamBound::Trait(tb) => bounds.push(path_last(&tb.path)),
+            _ => return Err("generic bound".into()),
+        }
+    }
+    bounds.sort();
+    if bounds != ["Read", "Seek", "Write"] {
+        return Err(format!("device parameter bounded by {}", bounds.join(" + ")));
+    }
+    let dev_ty = tps[0].ident.to_string();
+    // the one parameter: the device, by value
+    if f.sig.inputs.len() != 1 {
+        return Err("afn with other than one parameter".into());
+    }
+    let dev = match &f.sig.inputs[0] {
+        FnArg::Typed(t) => match (&*t.pat, &*t.ty) {
+            (Pat::Ident(id), Type::Path(p)) if p.path.is_ident(&dev_ty) && id.by_ref.is_none() => id.ident.to_string(),
+            _ => return Err("afn parameter is not the device by value".into()),
+        },
+        _ => return Err("afn with a self parameter".into()),
+    };
+    let mut tr = Tr::new(reg, failed, Some(ty.to_string()), 1);
+    tr.mode = Mode::R;
+    tr.w2.active = true;
+    tr.w2.defaults = derive_default_structs(all);
+    tr.reader = Some(dev);
+    tr.reader_owned = true;
+    tr.seekable = true;
+    tr.lean_name = format!("Gen.{ty}.{m}");
+    // ZipResult<Type<A>>
+    let ret = match &f.sig.output {
+        ReturnType::Type(_, t) => match &**t {
+            Type::Path(p) if path_last(&p.path) == "ZipResult" => match &p.path.segments.last().unwrap().arguments {
+                PathArguments::AngleBracketed(a) if a.args.len() == 1 => match &a.args[0] {
+                    GenericArgument::Type(t) => tr.ty(t)?,
+                    _ => return Err("ZipResult argument".into()),
+                },
+                _ => return Err("ZipResult argument".into()),
+            },
+            _ => return Err("afn that does not return ZipResult".into()),
+        },
+        _ => return Err("afn that does not return ZipResult".into()),
+    };
+    tr.ret_ty = Some(ret.clone());
+    tr.hint = Some(ret.clone());
+    tr.expect = Some(ret.clone());
+    tr.tail = true;
+    let v = tr.block_value(&f.block)?;
+    tr.emit(format!("pure {v}"));
+    let mut s = String::new();
+    for a in &tr.aux {
+        s += a;
+        s.push('\n');
+    }
+    writeln!(s, "def Gen.{ty}.{m} : Model.M {ret} := do").unwrap();
+    for l in &tr.lines {
+        writeln!(s, "{l}").unwrap();
+    }
+    let h = tokens_hash(&quote::quote!(#f));
+    Ok((s, h, f.span().start().line, f.span().end().line))
+}
+
+/// parameters of the closures inside an expression
+struct ClosureParams {
+    out: Vec<String>,
+}
+impl<'ast> syn::visit::Visit<'ast> for ClosureParams {
+    fn visit_expr_closure(&mut self, c: &'ast ExprClosure) {
+        for p in &c.inputs {
+            if let Pat::Ident(id) = p {
+                self.out.push(id.ident.to_string());
+            }
+        }
+        syn::visit::visit_expr_closure(self, c);
+    }
+}
+
+struct AnyReturn {
+    found: bool,
+}
+impl<'ast> syn::visit::Visit<'ast> for AnyReturn {
+    fn visit_expr_try(&mut self, _: &'ast ExprTry) {
+        // `?` inside a closure returns from the closure: not supported here
+        self.found = true;
+    }
+    fn visit_expr_break(&mut self, _: &'ast ExprBreak) {
+        self.found = true;
+    }
+    fn visit_expr_continue(&mut self, _: &'ast ExprContinue) {
+        self.found = true;
+    }
+}
+
+/// `collect::<Result<Vec<_>, _>>`
+fn is_collect_result_vec(m: &ExprMethodCall) -> bool {
+    if m.method != "collect" || !m.args.is_empty() {
+        return false;
+    }
+    match &m.turbofish {
+        Some(t) if t.args.len() == 1 => {
+            let s = quote::quote!(#t).to_string().replace(' ', "");
+            s == "::<Result<Vec<_>,_>>"
+        }
+        _ => false,
+    }
 }
 
 /// is `NAME.extend_from_slice(..)` called somewhere?
@@ -202,6 +372,41 @@ impl<'a> Tr<'a> {
                     let n = self.expr(&c.args[0])?;
                     return Ok(Some(format!("(Rs.B.with_capacity {n})")));
                 }
+                // GenericZipWriter::Storer(MaybeEncrypted::Unencrypted(device)): the device is the monad's
+                if segs.ends_with(&["GenericZipWriter".to_string(), "Storer".to_string()]) && c.args.len() == 1 {
+                    if let Expr::Call(ic) = &c.args[0] {
+                        if let Expr::Path(ip) = &*ic.func {
+                            let isegs: Vec<String> = ip.path.segments.iter().map(|s| s.ident.to_string()).collect();
+                            if isegs.ends_with(&["MaybeEncrypted".to_string(), "Unencrypted".to_string()]) && ic.args.len() == 1 {
+                                if self.reader_owned && matches!(&ic.args[0], Expr::Path(_)) && path_ident(&ic.args[0]) == self.reader {
+                                    return Ok(Some("(Model.Inner.storer none)".into()));
+                                }
+                                return Err("MaybeEncrypted::Unencrypted of something that is not the owned device".into());
+                            }
+                        }
+                    }
+                    return Err("GenericZipWriter::Storer of an unsupported expression".into());
+                }
+                // Default::default() of a structure that derives Default: field by field
+                if segs == ["Default", "default"] && c.args.is_empty() {
+                    let st = exp.as_deref().and_then(|t| t.strip_prefix("Gen.")).map(|x| x.to_string()).ok_or("Default::default() of an unknown type")?;
+                    let fields = self.w2.defaults.get(&st).cloned().ok_or(format!("Default::default() of {st}, which does not derive Default"))?;
+                    let tys = self.reg.struct_fields.get(&st).ok_or("Default::default() of an unregistered structure")?;
+                    let mut fs = vec![];
+                    for f in &fields {
+                        let t = tys.get(f).ok_or(format!("field {f} of {st} has no translated type"))?;
+                        let d = match t.as_str() {
+                            "UInt8" | "UInt16" | "UInt32" | "UInt64" => format!("(0 : {t})"),
+                            "Bool" => "false".to_string(),
+                            "Bytes" => "([] : Bytes)".to_string(),
+                            // crc32fast: `impl Default for Hasher { fn default() -> Self { Self::new() } }`
+                            "Rs.Hasher" => "Rs.Hasher.new".to_string(),
+                            other => return Err(format!("Default::default() of a field of type {other}")),
+                        };
+                        fs.push(format!("{f} := {d}"));
+                    }
+                    return Ok(Some(format!("({{ {} }} : Gen.{st})", fs.join(", "))));
+                }
                 // a translated `tfn`: its value (a panic of the callee is a panic)
                 if segs.len() == 1 {
                     if let Some(t) = tfn_ret(&segs[0]) {
@@ -233,6 +438,187 @@ impl<'a> Tr<'a> {
                 Ok(Some("()".into()))
             }
             _ => Ok(None),
+        }
+    }
+
+    /// Hook of `Tr::stmt`: `let _ = EXPR;` - the expression is evaluated for its effect, the value dropped.
+    pub(crate) fn w2_stmt(&mut self, s: &Stmt) -> R<bool> {
+        if let Stmt::Local(l) = s {
+            if cfg_on(&l.attrs) && matches!(&l.pat, Pat::Wild(_)) {
+                let init = match &l.init {
+                    Some(i) if i.diverge.is_none() => &*i.expr,
+                    _ => return Ok(false),
+                };
+                // only a device operation: `let _ = device.seek(..)` (its `Result` is dropped)
+                let ok = matches!(init, Expr::MethodCall(m) if matches!(&*m.receiver, Expr::Path(_)) && path_ident(&m.receiver) == self.reader && self.reader.is_some());
+                if !ok {
+                    return Err("`let _ =` of something other than a device operation".into());
+                }
+                let mark = self.lines.len();
+                let _ = self.expr(init)?;
+                if self.lines.len() == mark {
+                    return Err("`let _ =` of an expression without an action".into());
+                }
+                return Ok(true);
+            }
+        }
+        Ok(false)
+    }
+
+    /// Hook of `Tr::try_expr`:
+    /// `(LO..HI).map(|i| BODY).collect::<Result<Vec<_>, _>>()?` - `BODY` (a `Result`) runs for `i = LO, LO+1, …`;
+    /// the first `Err` ends the iteration and is the error of the whole expression (`Rs.B.collectRange`).
+    pub(crate) fn w2_try(&mut self, inner: &Expr) -> R<Option<String>> {
+        let m = match inner {
+            Expr::MethodCall(m) if is_collect_result_vec(m) => m,
+            _ => return Ok(None),
+        };
+        let map = match &*m.receiver {
+            Expr::MethodCall(mm) if mm.method == "map" && mm.args.len() == 1 => mm,
+            _ => return Err("collect of something other than `range.map(closure)`".into()),
+        };
+        let range = match &*map.receiver {
+            Expr::Paren(p) => match &*p.expr {
+                Expr::Range(r) if matches!(r.limits, RangeLimits::HalfOpen(_)) => r,
+                _ => return Err("collect over something other than a half-open range".into()),
+            },
+            _ => return Err("collect over something other than a half-open range".into()),
+        };
+        let cl = match &map.args[0] {
+            Expr::Closure(c) if c.inputs.len() == 1 && c.capture.is_none() => c,
+            _ => return Err("map of something other than a one-parameter closure".into()),
+        };
+        let ivar = match &cl.inputs[0] {
+            Pat::Wild(_) => "_i".to_string(),
+            Pat::Ident(id) if id.mutability.is_none() => id.ident.to_string(),
+            _ => return Err("closure parameter pattern".into()),
+        };
+        // the closure may assign its own parameters and locals only, and leaves only by its value
+        let mut av = AssignedVars { reg: self.reg, out: vec![], declared: vec![] };
+        syn::visit::Visit::visit_expr(&mut av, &cl.body);
+        let mut cp = ClosureParams { out: vec![] };
+        syn::visit::Visit::visit_expr(&mut cp, &cl.body);
+        let mut ar = AnyReturn { found: false };
+        syn::visit::Visit::visit_expr(&mut ar, &cl.body);
+        // `return Err(..)` is the closure's (failing) value; any other `return`, `break`, loop is refused
+        let mut esc = Escapes { reg: self.reg, found: false };
+        syn::visit::Visit::visit_expr(&mut esc, &cl.body);
+        if esc.found || ar.found || av.out.iter().any(|v| !av.declared.contains(v) && !cp.out.contains(v)) {
+            return Err("closure that assigns an outer variable, returns, breaks or uses `?`".into());
+        }
+        let (lo, hi) = match (&range.start, &range.end) {
+            (Some(a), Some(b)) => (a, b),
+            _ => return Err("open range".into()),
+        };
+        let ity = self.type_of(hi).or_else(|| self.type_of(lo)).ok_or("range of unknown type")?;
+        if ity != "UInt64" {
+            return Err(format!("range over {ity}"));
+        }
+        self.expect = Some(ity.clone());
+        let lo_s = self.expr(lo)?;
+        self.expect = Some(ity.clone());
+        let hi_s = self.expr(hi)?;
+        let t = self.fresh();
+        let head = self.lines.len();
+        self.emit(String::new()); // placeholder for the header
+        let saved_vars = self.vars.clone();
+        let saved_mut = self.mut_vars.clone();
+        let saved_untyped = self.untyped.clone();
+        let outer_rest = std::mem::take(&mut self.rest);
+        self.indent += 2;
+        self.nontail_sub += 1;
+        self.vars.insert(ivar.clone(), ity);
+        self.mut_vars.remove(&ivar);
+        let r = self.w2_result_value(&cl.body);
+        if let Ok((v, _)) = &r {
+            self.emit(format!("pure {v})"));
+        }
+        self.nontail_sub -= 1;
+        self.indent -= 2;
+        self.rest = outer_rest;
+        self.vars = saved_vars;
+        self.mut_vars = saved_mut;
+        self.untyped = saved_untyped;
+        let (_, ety) = r?;
+        let ety = ety.ok_or("closure whose value type is not evident")?;
+        let pad = "  ".repeat(self.indent);
+        self.lines[head] = format!("{pad}let {t} : (List {ety}) ← Rs.B.collectRange {lo_s} {hi_s} (fun {ivar} => do");
+        Ok(Some(t))
+    }
+
+    /// A `Result` expression whose `Ok` value is needed and whose `Err` is the error of the enclosing
+    /// computation: a block ending in such an expression, `R.map(|[mut] x| VALUE)`, or a call of a
+    /// translated READ-mode function.  Returns the Lean term of the value and its type.
+    fn w2_result_value(&mut self, e: &Expr) -> R<(String, Option<String>)> {
+        match e {
+            Expr::Paren(p) => self.w2_result_value(&p.expr),
+            Expr::Block(b) => {
+                let live: Vec<&Stmt> = b.block.stmts.iter().filter(|s| match s {
+                    Stmt::Expr(e, _) => cfg_on(expr_attrs(e)),
+                    Stmt::Local(l) => cfg_on(&l.attrs),
+                    _ => true,
+                }).collect();
+                let n = live.len();
+                for (i, s) in live.iter().enumerate() {
+                    if i + 1 == n {
+                        if let Stmt::Expr(le, None) = s {
+                            return self.w2_result_value(le);
+                        }
+                        return Err("block without a final expression".into());
+                    }
+                    self.rest = live[i + 1..].iter().map(|s| (*s).clone()).collect();
+                    self.stmt(s)?;
+                }
+                Err("empty block".into())
+            }
+            // R.map(|[mut] x| VALUE)  /  R.and_then(|[mut] x| RESULT)
+            Expr::MethodCall(m) if (m.method == "map" || m.method == "and_then") && m.args.len() == 1 => {
+                let is_map = m.method == "map";
+                let cl = match &m.args[0] {
+                    Expr::Closure(c) if c.inputs.len() == 1 && c.capture.is_none() => c,
+                    _ => return Err("Result::map / and_then of something other than a one-parameter closure".into()),
+                };
+                let (name, mutable) = match &cl.inputs[0] {
+                    Pat::Ident(id) if id.by_ref.is_none() => (id.ident.to_string(), id.mutability.is_some()),
+                    _ => return Err("closure parameter pattern".into()),
+                };
+                let (v, ty) = self.w2_result_value(&m.receiver)?;
+                let ty = ty.ok_or("Result::map on a value of unknown type")?;
+                let mm = if mutable { "mut " } else { "" };
+                self.emit(format!("let {mm}{name} : {ty} := {v}"));
+                self.vars.insert(name.clone(), ty.clone());
+                if mutable { self.mut_vars.insert(name.clone()); } else { self.mut_vars.remove(&name); }
+                if is_map {
+                    let vty = self.type_of(&cl.body);
+                    let val = match &*cl.body {
+                        Expr::Block(b) => self.block_value(&b.block)?,
+                        other => self.expr(other)?,
+                    };
+                    Ok((val, vty))
+                } else {
+                    // the closure's value is a `Result`: `return Err(e)` inside it and an `Err` value are the
+                    // failure of the enclosing computation
+                    self.w2_result_value(&cl.body)
+                }
+            }
+            // Ok(v)
+            Expr::Call(c) if matches!(&*c.func, Expr::Path(p) if p.path.is_ident("Ok")) && c.args.len() == 1 => {
+                let ty = self.type_of(&c.args[0]);
+                let v = self.expr(&c.args[0])?;
+                Ok((v, ty))
+            }
+            Expr::Call(c) => {
+                let ty = self.type_of(e).and_then(|t| t.strip_prefix("(Except ZErr ").and_then(|x| x.strip_suffix(')')).map(|x| x.to_string()));
+                match self.r_callee(c)? {
+                    Some((act, aty)) => {
+                        let ty = aty.or(ty);
+                        let t = self.bind_typed(act, ty.clone());
+                        Ok((t, ty))
+                    }
+                    None => Err("closure result that is not a call of a translated READ-mode function".into()),
+                }
+            }
+            _ => Err("unsupported closure result".into()),
         }
     }
 }
